@@ -779,9 +779,48 @@ func pathAvoiding(fn *ssa.Function, from ssa.Instruction, target, avoid func(ssa
 	phiIdx := map[*ssa.Phi]uint{}
 	for _, b := range fn.Blocks {
 		for _, in := range b.Instrs {
-			if phi, ok := in.(*ssa.Phi); ok && len(phiIdx) < 60 {
+			if phi, ok := in.(*ssa.Phi); ok && len(phiIdx) < 40 {
 				if bt, ok := phi.Type().Underlying().(*types.Basic); ok && bt.Kind() == types.Bool {
 					phiIdx[phi] = uint(len(phiIdx))
+				}
+			}
+		}
+	}
+	// Branch conditions tested more than once (the same SSA value in several
+	// `if`s) are tracked the same way: once a path has taken one side, a later
+	// test of that value follows only the consistent side. A value defined in
+	// a block is forgotten when the path enters that block again (loops).
+	condIdx := map[ssa.Value]uint{}
+	condDef := map[*ssa.BasicBlock][]uint{}
+	{
+		count := map[ssa.Value]int{}
+		for _, b := range fn.Blocks {
+			if len(b.Instrs) == 0 {
+				continue
+			}
+			if iff, ok := b.Instrs[len(b.Instrs)-1].(*ssa.If); ok {
+				v, _ := stripNot(iff.Cond, true)
+				if _, isPhi := v.(*ssa.Phi); !isPhi {
+					if _, isK := v.(*ssa.Const); !isK {
+						count[v]++
+					}
+				}
+			}
+		}
+		for _, b := range fn.Blocks {
+			if len(b.Instrs) == 0 {
+				continue
+			}
+			if iff, ok := b.Instrs[len(b.Instrs)-1].(*ssa.If); ok {
+				v, _ := stripNot(iff.Cond, true)
+				if count[v] >= 2 && len(phiIdx)+len(condIdx) < 62 {
+					if _, seen := condIdx[v]; !seen {
+						ix := uint(len(phiIdx) + len(condIdx))
+						condIdx[v] = ix
+						if in, isIn := v.(ssa.Instruction); isIn && in.Block() != nil {
+							condDef[in.Block()] = append(condDef[in.Block()], ix)
+						}
+					}
 				}
 			}
 		}
@@ -832,6 +871,7 @@ func pathAvoiding(fn *ssa.Function, from ssa.Instruction, target, avoid func(ssa
 			continue
 		}
 		succs := s.b.Succs
+		branchCond, branchPol, branchIx := false, false, uint(0)
 		if len(s.b.Instrs) > 0 && len(succs) == 2 {
 			if iff, ok := s.b.Instrs[len(s.b.Instrs)-1].(*ssa.If); ok {
 				v, pol := stripNot(iff.Cond, true)
@@ -844,6 +884,13 @@ func pathAvoiding(fn *ssa.Function, from ssa.Instruction, target, avoid func(ssa
 					if ix, ok := phiIdx[phi]; ok && s.known&(1<<ix) != 0 {
 						pv := s.val&(1<<ix) != 0
 						takeTrue, decided = pv == pol, true
+					}
+				} else if ix, ok := condIdx[v]; ok {
+					if s.known&(1<<ix) != 0 {
+						pv := s.val&(1<<ix) != 0
+						takeTrue, decided = pv == pol, true
+					} else {
+						branchCond, branchPol, branchIx = true, pol, ix
 					}
 				}
 				if decided {
@@ -860,6 +907,22 @@ func pathAvoiding(fn *ssa.Function, from ssa.Instruction, target, avoid func(ssa
 				continue
 			}
 			known, val := s.known, s.val
+			if branchCond && len(s.b.Succs) == 2 {
+				// this successor fixes the value of the condition just tested
+				isTrueSucc := nx == s.b.Succs[0]
+				if s.b.Succs[0] != s.b.Succs[1] {
+					known |= 1 << branchIx
+					if isTrueSucc == branchPol {
+						val |= 1 << branchIx
+					} else {
+						val &^= 1 << branchIx
+					}
+				}
+			}
+			for _, ix := range condDef[nx] {
+				known &^= 1 << ix
+				val &^= 1 << ix
+			}
 			for _, in := range nx.Instrs {
 				phi, ok := in.(*ssa.Phi)
 				if !ok {
